@@ -410,6 +410,10 @@ func parseField(v reflect.Value, data []byte, initOffset int, info *fieldInfo) (
 			}
 
 			destination := v.Field(i)
+			if !destination.CanSet() {
+				// Unexported and blank fields cannot be filled in by reflection.
+				return offset, structuralError{fieldInfo.name, "cannot set unexported field"}
+			}
 			if fieldInfo.selector != "" {
 				// This is a possible select(Enum) destination, so first check that the referenced
 				// selector field has already been seen earlier in the struct.
